@@ -12,6 +12,8 @@ VERIF = Path(__file__).resolve().parent.parent
 NOT_CLAIMED_DEFAULT = "check not built yet in this session (see DESIGN.md section 3 for the planned PBT design)"
 
 ENGINES = [
+    {"name": "cwlgen", "path": "vf/cwlgen/", "kind_free_text": "CWL document generator + differential runner (StreamFlow vs cwltool, one subprocess per run, relative hang budget)"},
+    {"name": "fakes", "path": "vf/fakes/", "kind_free_text": "shell-backed fake remote connector, identity wrapper, instrumented deployment connectors, fake Slurm executables; vf/fs.py file-tree generator"},
     {"name": "runner", "path": "vf/runner.py", "kind_free_text": "Hypothesis/enumeration driver: shards, seeds, evidence, replay, known-findings protocol"},
     {"name": "detloop", "path": "vf/engine/detloop.py", "kind_free_text": "deterministic asyncio loop with virtual time, chaos points and exact deadlock detector; synchronous sqlite adapter in vf/engine/syncsql.py"},
 ]
@@ -53,7 +55,7 @@ def main() -> int:
         engines.append(e)
     manifest = {
         "version": 1,
-        "setup_cmd": "/venv/bin/python -c 'import hypothesis' 2>/dev/null || /venv/bin/pip install --no-index --find-links /opt/veriftools/wheels hypothesis",
+        "setup_cmd": "(/venv/bin/python -c 'import hypothesis' 2>/dev/null || /venv/bin/pip install -q --no-index --find-links /opt/veriftools/wheels hypothesis) && (PYTHONPATH=/verif/.deps /venv/bin/python -c 'import atheris' 2>/dev/null || /venv/bin/pip install -q --no-index --find-links /opt/veriftools/wheels --target /verif/.deps atheris) && chmod +x /verif/check /verif/vf/fakes/slurm/s* 2>/dev/null; true",
         "hooks": {
             "guard": "STREAMFLOW_VERIF",
             "enable": "checks export STREAMFLOW_VERIF=1 (./check does); no repository hook exists so far: all instrumentation wraps instances from the harness",
